@@ -159,7 +159,11 @@ func planInlines(pkgs []*packages.Package) *inlinePlan {
 				inspectNoLit(fd.Body, func(n ast.Node) {
 					switch x := n.(type) {
 					case *ast.DeferStmt:
-						c.eligible, c.why = false, "defer"
+						// the one defer that can be inlined: `defer mu.Unlock()` as a top-level statement of
+						// the body with no return before it; it is run before every rewritten return
+						if !unlockDeferAt(fd.Body, x) {
+							c.eligible, c.why = false, "defer"
+						}
 					case *ast.CallExpr:
 						if id, ok := x.Fun.(*ast.Ident); ok && id.Name == "recover" {
 							c.eligible, c.why = false, "recover"
@@ -1010,6 +1014,15 @@ func (tr *inlTransformer) expand(call *ast.CallExpr, site *inlSite) ([]ast.Stmt,
 	nret := 0
 	renameLabels(fd.Body, pfx)
 	ok := true
+	// a top-level `defer mu.Unlock()` (see unlockDeferAt) is taken out and run before every rewritten return
+	var unlockFun ast.Expr
+	for i, st := range fd.Body.List {
+		if d, isD := st.(*ast.DeferStmt); isD {
+			unlockFun = d.Call.Fun
+			fd.Body.List = append(append([]ast.Stmt{}, fd.Body.List[:i]...), fd.Body.List[i+1:]...)
+			break
+		}
+	}
 	mkReturn := func(rs *ast.ReturnStmt) ast.Stmt {
 		nret++
 		var stmts []ast.Stmt
@@ -1034,6 +1047,9 @@ func (tr *inlTransformer) expand(call *ast.CallExpr, site *inlSite) ([]ast.Stmt,
 			}
 			stmts = append(stmts, as)
 		}
+		if unlockFun != nil {
+			stmts = append(stmts, &ast.ExprStmt{X: &ast.CallExpr{Fun: unlockFun}})
+		}
 		stmts = append(stmts, &ast.BranchStmt{Tok: token.BREAK, Label: ident(label)})
 		return &ast.BlockStmt{List: stmts}
 	}
@@ -1042,6 +1058,10 @@ func (tr *inlTransformer) expand(call *ast.CallExpr, site *inlSite) ([]ast.Stmt,
 		return nil, nil
 	}
 	body = append(body, fd.Body.List...)
+	if unlockFun != nil && len(results) == 0 {
+		// a helper without results may fall off its end
+		body = append(body, &ast.ExprStmt{X: &ast.CallExpr{Fun: unlockFun}})
+	}
 	if nret > 0 {
 		sw := &ast.SwitchStmt{Body: &ast.BlockStmt{List: []ast.Stmt{&ast.CaseClause{Body: body}}}}
 		out = append(out, &ast.LabeledStmt{Label: ident(label), Stmt: sw})
@@ -1049,6 +1069,39 @@ func (tr *inlTransformer) expand(call *ast.CallExpr, site *inlSite) ([]ast.Stmt,
 		out = append(out, &ast.BlockStmt{List: body})
 	}
 	return out, rnames
+}
+
+// unlockDeferAt: d is `defer X.Unlock()` / `defer X.RUnlock()`, a top-level statement of body, the only defer of
+// the body, and no statement before it contains a return.
+func unlockDeferAt(body *ast.BlockStmt, d *ast.DeferStmt) bool {
+	sel, ok := d.Call.Fun.(*ast.SelectorExpr)
+	if !ok || len(d.Call.Args) != 0 || (sel.Sel.Name != "Unlock" && sel.Sel.Name != "RUnlock") {
+		return false
+	}
+	nDefer := 0
+	inspectNoLit(body, func(n ast.Node) {
+		if _, ok := n.(*ast.DeferStmt); ok {
+			nDefer++
+		}
+	})
+	if nDefer != 1 {
+		return false
+	}
+	for _, st := range body.List {
+		if st == ast.Stmt(d) {
+			return true
+		}
+		hasRet := false
+		inspectNoLit(st, func(n ast.Node) {
+			if _, ok := n.(*ast.ReturnStmt); ok {
+				hasRet = true
+			}
+		})
+		if hasRet {
+			return false
+		}
+	}
+	return false
 }
 
 // rewriteReturns replaces the return statements of a body (not those of
